@@ -1,4 +1,5 @@
 import GrVerif.Model.Seg
+import GrVerif.Gen.Justify
 /-!
 # Line breaking and the line-end sentinels of justification   (C19)
 
@@ -53,6 +54,19 @@ def Seg.delLineEnd (s : Seg) (e : Nat) : Option Seg :=
     match (s.get e).prev with
     | some q => some ((s.upd q fun sl => sl.setNext none).freeSlot e)
     | none => none
+
+/-- The bracket of `Segment::justify` in a font with line-end contextuals: `m_first = addLineEnd(first)`, `m_last = addLineEnd(end)`, (the
+justification passes and `positionSlots` leave the links of the stream alone), then the two `delLineEnd` calls in the order
+`src/Justifier.cpp` has them on this run (`Gen.Justify.bracketRemovedLastInsertedFirst`, regenerated). -/
+def Seg.justifyBracket (s : Seg) (first «end» : Nat) (growthFactor : Nat) : Option Seg :=
+  match s.addLineEnd (some first) growthFactor with
+  | none => none
+  | some (e1, s1) =>
+    match s1.addLineEnd (some «end») growthFactor with
+    | none => none
+    | some (e2, s2) =>
+      if Gen.Justify.bracketRemovedLastInsertedFirst then (s2.delLineEnd e2).bind fun s3 => s3.delLineEnd e1
+      else (s2.delLineEnd e1).bind fun s3 => s3.delLineEnd e2
 
 /-- The level-0 distribution loop of `Segment::justify` with its body abstracted:
 `int rounds = 0; do { body } while (again && ++rounds <= numSlots);` - `body` is one round over the slots of the line and answers
